@@ -4,7 +4,9 @@ import random
 
 import core
 import corecheck
+import e2e
 import gen
+from common import run_harness
 
 
 def relayout(rng, rows):
@@ -40,8 +42,12 @@ def relayout(rng, rows):
         extra = ["notes", "Broker Ref", ""][: rng.randint(1, 3)]
         desc.append("unknown columns")
     # file partition
-    nfiles = rng.choice([1, 1, 2, 3])
-    cuts = sorted(rng.sample(range(1, max(2, len(new))), min(nfiles - 1, max(0, len(new) - 1)))) if len(new) > 1 else []
+    nfiles = rng.choice([1, 1, 2, 3, 3, 4])
+    if rng.random() < 0.25:
+        # cuts may coincide or sit at the ends: files holding a header and no rows
+        cuts = sorted(rng.randint(0, len(new)) for _ in range(nfiles - 1))
+    else:
+        cuts = sorted(rng.sample(range(1, max(2, len(new))), min(nfiles - 1, max(0, len(new) - 1)))) if len(new) > 1 else []
     parts = []
     prev = 0
     for c in cuts + [len(new)]:
@@ -62,7 +68,7 @@ def relayout(rng, rows):
             c = core.row_csv(r)
             cells = [c[k] for k in allc]
             for e, p in zip(extra, pos):
-                cells.insert(p, rng.choice(["", "x", "12.5", "junk, with comma"]))
+                cells.insert(p, rng.choice(["", "x", "12.5", "junk, with comma", "#17", "# a note", "//x", ";"]))
             lines.append(",".join(core.csv_quote(x) for x in cells))
         files.append("\n".join(lines) + "\n")
     return files, new, ", ".join(desc) or "identity"
@@ -98,6 +104,11 @@ def run(res, ctx):
     orig, relaid, descs = [], [], []
     for _ in range(n):
         c = gen.gen_case(rng, p_invalid=0.05, window_focus=(rng.random() < 0.4))
+        if rng.random() < 0.3:
+            # memo cells that a lenient reader could take for something else (comment markers, quotes)
+            for r in c["rows"]:
+                if rng.random() < 0.5:
+                    r["memo"] = rng.choice(["#4711 second lot", "# note", "lot 7", "//", "; x", "'q'", "a, b"])
         files, new_rows, desc = relayout(rng, c["rows"])
         orig.append(c)
         relaid.append({"rows": new_rows, "inits": c["inits"], "files": files})
@@ -121,6 +132,29 @@ def run(res, ctx):
             st["distinct_nontrivial"] += 1
             if len(samples) < 2:
                 samples.append({"original": x["hc"]["files"], "relaid": y["hc"]["files"], "layout": desc})
+    # end-to-end pass: the cells of the SAME CSV texts -> extracted reader + bridge + ledger
+    # (coq/Model/Bridge.v read_and_run), against the implementation and against the
+    # Python-encoded model run; then the hand-written corpus aimed at the glue
+    e2e_diffs = []
+    for rs, cs in ((ra, orig), (rb, relaid)):
+        dd, est, _ = e2e.run_pass([r["hc"] for r in rs], [r["raw"] for r in rs],
+                                  [e2e.init_pairs(c) for c in cs], [r["dec"] for r in rs])
+        st.update(est)
+        e2e_diffs += [(rs[k]["hc"], d) for k, d in dd]
+    glue = e2e.glue_corpus()
+    ghc = [{"files": c["files"], "init": gen.init_specs(c), "render": False, "costs": False} for c in glue]
+    graw = run_harness(ctx["exe"], "core", ghc)
+    dd, est, gout = e2e.run_pass(ghc, graw, [e2e.init_pairs(c) for c in glue])
+    st.update(est)
+    st["e2e-glue-corpus"] = len(glue)
+    for g, o in zip(glue, gout):
+        st["e2e-glue-" + o["status"]] += 1
+    e2e_diffs += [(dict(ghc[k], corpus=glue[k]["name"]), d) for k, d in dd]
+    if e2e_diffs and not res.violations:
+        hc, d = e2e_diffs[0]
+        res.violation("broken-correspondence", "reader + bridge model and implementation differ: " + d,
+                      {"theorem_or_projection": "correspondence projection C07 end-to-end (cells of the CSV text -> parse_table -> tx_try_from -> abs_tx -> run_app)",
+                       "input": hc, "difference": d, "differing_cases": len(e2e_diffs)}, found_input=False)
     if corr and not res.violations:
         r, d = corr[0]
         res.violation("broken-correspondence", "model (dec) and implementation differ: " + d,
@@ -128,10 +162,14 @@ def run(res, ctx):
                        "input": r["hc"], "difference": d}, found_input=False)
     res.coverage.update({
         "evaluations": 2 * st["evaluations"],
+        "e2e_evaluations": st["e2e-evaluations"],
+        "e2e_rule": "every CSV text of the run (original and re-laid-out, several files) and an 80-case corpus aimed at the glue are tokenised with Python's csv module and their cells given to the extracted Rocq reader + bridge + ledger (entry 30 of Exec/CodecE2E.v); compared with the implementation bit-exactly (status, rejection class by message, every delta: action, affiliate, settlement day, balances before/after, ACB, gain, superficial-loss data), row by row with the Tx values the implementation parsed (shares, price, commission, both exchange rates, split terms and whole-number flag, dates, affiliate id and registered flag, read index), and with the Python-encoded model run (identical output required); the e2e:* counters of input_distribution count the kinds of cells exercised",
         "distinct_nontrivial": st["distinct_nontrivial"],
         "rule": "each seeded random input is run as generated and re-laid-out (random file partition, column permutation, header case/padding, unknown columns incl. a blank-headed one, row permutation keeping the relative order of same-security same-settlement-date rows); non-trivial = layout differs and the input parses; distinct by SHA-1 of the original CSV",
         "samples": samples,
         "input_distribution": dict(sorted(st.items())),
         "traces_validated_against_impl": 2 * st["evaluations"],
     })
-    res.assumptions += ["CSV tokenisation/quoting (csv crate), Unicode case folding and whitespace trimming are exercised, not modelled (the header theorems are parametric in the recognition function)"]
+    res.assumptions += ["CSV tokenisation/quoting (csv crate) is exercised, not modelled: the end-to-end pass tokenises with Python's csv module (same RFC-4180 dialect on the generated texts)",
+                        "header recognition and field parsing are the byte-level model of Model/CsvFields.v / CsvTable.v: ASCII case folding (str::to_lowercase / to_uppercase on non-ASCII letters is outside; for header recognition this loses nothing, no column name contains a letter that a non-ASCII character folds to), str::trim on the Unicode White_Space bytes",
+                        "a USD amount without an exchange rate needs the rate loader (RejOther 98 in the bridge model): outside"]
